@@ -56,6 +56,8 @@ fn main() {
 		"C02" => props::c02::run(&ctx, &mut rep),
 		"C03" => props::c03::run(&ctx, &mut rep),
 		"C08" => props::c08::run(&ctx, &mut rep),
+		"C04" => props::c04::run(&ctx, &mut rep),
+		"C05" => props::c05::run(&ctx, &mut rep),
 		"C07" => props::c07::run(&ctx, &mut rep),
 		"C15" => props::c15::run(&ctx, &mut rep),
 		"C19" => props::c19::run(&ctx, &mut rep),
